@@ -8,7 +8,7 @@ import os, re, sys, glob, subprocess, time
 import vlib
 
 WRAP = ["socket", "connect", "close", "shutdown", "getsockopt", "getsockname", "getpeername", "gettimeofday",
-        "pthread_mutex_lock"]
+        "pthread_mutex_lock", "epoll_ctl"]
 
 # errno classes of the property text ("refused or failed attempts" are retried; an attempt that is in
 # progress is watched; anything else is given up) -- the oracle's own table, Linux numbers
@@ -344,9 +344,10 @@ def oracle(case, lines):
     return fails, sigs
 
 
-def known_key_for(fails, sigs):
+def known_key_for(fails, sigs, release=False):
     """A failure is a recorded finding only when the history shows that finding's op pattern before it:
-    the latest such pattern is taken as the cause."""
+    the latest such pattern is taken as the cause.  release: the -DNDEBUG build, where the failed asserts of F-10 / F-17
+    show as a leaked, unwatched socket instead."""
     i, kind, msg = fails[0]
     prio = {KEY_N2: 2, KEY_F13: 1}
     allowed = []
@@ -356,6 +357,8 @@ def known_key_for(fails, sigs):
         allowed = [KEY_F10A, KEY_F10B, KEY_F13]
     elif kind in ("up", "down", "retry-policy", "stop", "destroy"):
         allowed = [KEY_F13]
+    elif kind == "hygiene" and release:
+        allowed = [KEY_F10A, KEY_N4]
     cand = [(sigs[key], prio.get(key, 0), key) for key in allowed if key in sigs and sigs[key] <= i]
     if not cand:
         return None
@@ -457,6 +460,7 @@ def run(chk, replay=None):
     pr = chk.prove(extra_targets=("Base_Bytes.vo", "C12_Model.vo"))
     model = vlib.build_model("C12")
     impl = vlib.build_driver("C12_driver", ["C12_driver.cc"], variant="asan", wrap=WRAP)
+    impl_nd = vlib.build_driver("C12_driver_ndebug", ["C12_driver.cc"], variant="ndebug", wrap=WRAP)
 
     t_gen = time.time()
     if replay:
@@ -467,7 +471,7 @@ def run(chk, replay=None):
         cases = load_corpus() + scenarios()
         depth = 5 if tier == "quick" else 7
         cases += gen(model, ["enum", depth], "enum-depth-%d" % depth)
-        nrand, maxlen = (1600, 40) if tier == "quick" else (150000, 120)
+        nrand, maxlen = (4000, 40) if tier == "quick" else (150000, 120)
         nw = 8
         for j in range(nw):
             cases += gen(model, ["random", rng.randrange(1, 1 << 29), nrand // nw, maxlen], "random")
@@ -476,7 +480,39 @@ def run(chk, replay=None):
     t2 = time.time()
     model_out, _ = vlib.run_batch_parallel(model, cases, timeout=3000)
     t3 = time.time()
-    chk.cov["phase_s"] = {"generate": round(t1 - t_gen, 1), "impl": round(t2 - t1, 1), "model": round(t3 - t2, 1)}
+    # release build (-O2 -DNDEBUG, no sanitizer): every case on which the model does not Fault hits no assert, so the
+    # release build has to behave like the model there as well
+    clean = [c for c in cases if c.cid in model_out and "FAULT" not in model_out[c.cid]]
+    nd_out, nd_crashes = vlib.run_batch_parallel(impl_nd, clean, timeout=3000)
+    nd_bad = []
+    for c in clean:
+        ln = nd_out.get(c.cid)
+        if ln is None or canon(ln) != model_out[c.cid]:
+            idx = next((i for i in range(min(len(ln or []), len(model_out[c.cid]))) if canon(ln)[i] != model_out[c.cid][i]), 0)
+            nd_bad.append((c, idx, "NDEBUG impl %r vs model %r" % ((ln or [None] * (idx + 1))[idx] if ln and idx < len(ln) else None,
+                                                                   model_out[c.cid][idx] if idx < len(model_out[c.cid]) else None)))
+    # ... and the recorded findings as they show in the release build (goldens reviewed by hand, corpus/C12/ndebug)
+    gold_bad, gold_n = [], 0
+    if not replay:
+        for f in sorted(glob.glob(os.path.join(vlib.ROOT, "corpus", "C12", "ndebug", "*.case"))):
+            gc_ = parse_cases(open(f).read(), "ndebug-golden")
+            exp = open(f[:-5] + ".expect").read().split("\n")
+            go, _ = vlib.run_batch(impl_nd, gc_, timeout=300)
+            for c in gc_:
+                gold_n += 1
+                got = go.get(c.cid) or []
+                want = [l for l in exp if l]
+                if got != want:
+                    idx = next((i for i in range(min(len(got), len(want))) if got[i] != want[i]), min(len(got), len(want)))
+                    gold_bad.append((c, idx, "release-build behaviour of a recorded finding changed: got %r, recorded %r" %
+                                     (got[idx] if idx < len(got) else None, want[idx] if idx < len(want) else None)))
+                fl, sg = oracle(c, got)
+                if fl and known_key_for(fl, sg, release=True) is None:
+                    gold_bad.append((c, fl[0][0], "release build: %s (not a recorded pattern)" % fl[0][2]))
+    t4 = time.time()
+    chk.cov["phase_s"] = {"generate": round(t1 - t_gen, 1), "impl": round(t2 - t1, 1), "model": round(t3 - t2, 1), "impl_ndebug": round(t4 - t3, 1)}
+    chk.cov["ndebug_cases"] = len(clean)
+    chk.cov["ndebug_goldens"] = gold_n
 
     known = {k["key"]: k for k in vlib.known_findings() if k["property"] == "C12"}
     corr_bad, oracle_bad, known_hits = [], [], {}
@@ -527,8 +563,12 @@ def run(chk, replay=None):
                        "(events, timers armed, connector state, timer queue, functor queue length, descriptor census, client, connections)",
                        not corr_bad)
     chk.add_obligation("oracle: the property text on the implementation's outputs (outside recorded findings)", not oracle_bad)
+    chk.add_obligation("correspondence, release build (-DNDEBUG): identical to the model on every case without a Fault (%d cases)" % len(clean), not nd_bad)
+    chk.add_obligation("release-build behaviour of F-10 / F-16 / F-17 as recorded (corpus/C12/ndebug/*.expect: overwritten channel_ and "
+                       "leaked descriptor; reconnect works; new channel destroyed, SIGSEGV in stopInLoop)", not gold_bad)
     chk.trusted("extraction: ExtrOcamlBasic only; extract/util.ml + extract/C12_driver.ml (OCaml 4.13.1); the runner's enum/random "
                 "modes only generate inputs",
+                "two builds of the driver: ASan+UBSan with asserts, and -O2 -DNDEBUG without sanitizer",
                 "harness/C12_driver.cc: scripted kernel by -Wl,--wrap (socket = one end of an AF_UNIX socketpair, connect, getsockopt(SO_ERROR), "
                 "getsockname/getpeername, close, shutdown), virtual clock (gettimeofday), foreign calls cut at pthread_mutex_lock, "
                 "events delivered by Channel::handleEvent / TimerQueue::handleRead / the functor queue directly (no poll)",
@@ -562,7 +602,7 @@ def run(chk, replay=None):
         msg = (f2 or fails)[0][2]
         p = chk.write_replay("oracle_%s.case" % c.cid, "# %s\n# (%d failing cases; first: %s)\n" % (msg.replace("\n", " "), len(oracle_bad), c.cid) + small.text())
         chk.violation(p, "C12 fails on the implementation: %s (%d failing cases)" % (msg, len(oracle_bad)))
-    elif corr_bad or not pr["ok"] or gen_problems:
+    elif corr_bad or nd_bad or gold_bad or not pr["ok"] or gen_problems:
         what = []
         if not pr["ok"]:
             what.append("proof obligation(s) no longer check: %s %s" % (pr["broken"], pr["problems"]))
@@ -581,6 +621,11 @@ def run(chk, replay=None):
             what.append("correspondence C12_Model vs TcpClient/Connector broken at line %d of case %s (%s); %d cases differ; the oracle holds on all %d cases"
                         % (idx, c.cid, msg, len(corr_bad), len(cases)))
             body = small.text()
+        for lst_, label in ((nd_bad, "release build (-DNDEBUG) vs model"), (gold_bad, "release-build golden")):
+            if lst_ and not body:
+                c, idx, msg = lst_[0]
+                what.append("%s: case %s line %d: %s (%d cases)" % (label, c.cid, idx, msg, len(lst_)))
+                body = c.text()
         p = chk.write_replay("broken_obligation.txt", "\n".join("# " + w for w in what) + "\n" + body +
                              ("\n--- coq log tail ---\n" + pr["log"][-3000:] if not pr["ok"] else ""))
         chk.violation(p, "; ".join(what), no_input=True)
